@@ -60,6 +60,44 @@ def coq_stage(pid, prop, ev, problems, tier="quick"):
             else:
                 discharged = len(thms)
     obligations = len(thms)
+    # ---- secondary closure: theorems of this property about a model that also needs leaves OUTSIDE the property's own
+    # areas.  If such a foreign leaf changed or stopped translating (and none of the property's own did), a failure
+    # there says nothing about this property: it is noted, not reported.
+    sec = prop.get("secondary")
+    if sec and not any(p["kind"] == "proof" for p in problems):
+        sthms = sec["theorems"]
+        obligations += len(sthms)
+        changed = set(m["area"] for m in misses)
+        try:
+            old = json.load(open(os.path.join(C.DRIVER_DIR, "gen_stamp.json")))
+            cur = C.gen_hashes()
+            changed |= set(a for a in cur if old.get(a) != cur[a])
+        except (OSError, ValueError):
+            old = None
+        foreign_only = bool(changed) and not (changed & areas)
+        sprob = None
+        ok, out = C.coq_make(["theories/Properties/%s.vo" % sec["file"]])
+        if not ok:
+            sprob = {"kind": "proof", "what": "Coq build of the closure of Properties/%s.v failed" % sec["file"], "detail": C.coq_first_error(out)}
+        else:
+            rc, out = C.run(["coqc", "-noglob", "-Q", "theories", "RsdnsModel", "pins/%s.v" % sec["file"]], cwd=C.COQ, timeout=600)
+            for f in glob.glob(os.path.join(C.COQ, "pins", "%s.vo*" % sec["file"])) + glob.glob(os.path.join(C.COQ, "pins", ".%s.aux" % sec["file"])):
+                try:
+                    os.remove(f)
+                except OSError:
+                    pass
+            closed = out.count("Closed under the global context")
+            if rc != 0 or "Axioms:" in out or closed < len(sthms):
+                sprob = {"kind": "proof", "what": "pinned statements of %s no longer check (%d closed of %d)" % (sec["file"], closed, len(sthms)), "detail": C.coq_first_error(out)}
+            else:
+                discharged += len(sthms)
+        if sprob and foreign_only:
+            cov["secondary"] = "Properties/%s.v not re-checked: leaf areas %s, outside this property's own areas, changed or no longer translate (%s)" % (sec["file"], sorted(changed), sprob["what"])
+        elif sprob:
+            problems.append(sprob)
+        else:
+            cov["secondary"] = "Properties/%s.v: %d theorems re-checked" % (sec["file"], len(sthms))
+        thms = thms + sthms
     # forbidden constructs anywhere in the development
     rc, out = C.run(["grep", "-rnE", r"\b(Admitted|admit|Axiom|Parameter|Conjecture|Abort All)\b|Unset Guard|bypass_check|type-in-type|Admit Obligations", "--include=*.v", "theories", "pins"], cwd=C.COQ)
     bad = [l for l in out.splitlines() if l.strip() and not re.search(r"\(\*.*(Admitted|admit|Axiom|Parameter).*\*\)", l)]
@@ -68,7 +106,10 @@ def coq_stage(pid, prop, ev, problems, tier="quick"):
     # thorough tier: re-check the compiled closure with the independent checker and list its axioms
     if tier == "thorough" and thms and not any(p["kind"] == "proof" for p in problems):
         t0 = time.time()
-        rc, out = C.run(["coqchk", "-o", "-silent", "-Q", "theories", "RsdnsModel", "RsdnsModel.Properties.%s" % pid], cwd=C.COQ, timeout=1800)
+        libs = ["RsdnsModel.Properties.%s" % pid]
+        if prop.get("secondary") and str(cov.get("secondary", "")).endswith("re-checked"):
+            libs.append("RsdnsModel.Properties.%s" % prop["secondary"]["file"])
+        rc, out = C.run(["coqchk", "-o", "-silent", "-Q", "theories", "RsdnsModel"] + libs, cwd=C.COQ, timeout=1800)
         m = re.search(r"\* Axioms:\s*(.*?)\n\s*\n", out, re.S)
         ax = m.group(1).strip() if m else "?"
         cov["coqchk"] = {"exit": rc, "axioms": ax[:400], "seconds": round(time.time() - t0, 1)}
